@@ -722,12 +722,28 @@ class Gen(object):
       pairs = ', '.join('(%s, %s)' % (self.expr(fc, blk, 2), self.expr(fc, blk, 2)) for _ in range(self.rng.randint(0, 3)))
       hdr = 'for %s, %s in [%s]:' % (t1, t2, pairs)
       tg = [t1, t2]
-    elif r < 0.90:
+    elif r < 0.85:
       t1, t2 = tgt(), tgt()
       if t1 == t2:
         t2 = self.fresh('j')
       hdr = self.rng.choice(['for %s, %s in enumerate(xs):', 'for (%s, %s) in zip(xs, range(5)):']) % (t1, t2)
       tg = [t1, t2]
+      it_list = 'xs'
+    elif r < 0.90:
+      # nested and starred target patterns
+      ts = []
+      for _ in range(3):
+        t = tgt()
+        while t in ts:
+          t = self.fresh('j')
+        ts.append(t)
+      rest = self.fresh('rest')
+      form = self.rng.choice(['for %(a)s, (%(b)s, %(c)s) in enumerate(zip(xs, range(5))):',
+                              'for (%(a)s, [%(b)s, %(c)s]) in zip(xs, zip(xs, range(5))):',
+                              'for %(a)s, *%(r)s in zip(xs, xs, range(5)):',
+                              'for %(a)s, (%(b)s, *%(r)s), %(c)s in zip(xs, zip(xs, xs, xs), range(5)):'])
+      hdr = form % {'a': ts[0], 'b': ts[1], 'c': ts[2], 'r': rest}
+      tg = [t for t, k in zip(ts, 'abc') if '%%(%s)s' % k in form]
       it_list = 'xs'
     elif r < 0.95 or self.p.pure:
       t = tgt()
